@@ -116,6 +116,22 @@ func c03Point(t *rapid.T, ev *evProp, gi *GroupInfo) {
 	if !r1.Equal(r2) || !bytes.Equal(mustMarshal(t, r1), mustMarshal(t, r2)) {
 		c03Fail(t, ev, gi, "value-changed", "arithmetic on the marshalled object and on its untouched twin disagree: %s vs %s\n%s k=%s O=%s", pointHex(r1), pointHex(r2), ctx, k, o.Desc)
 	}
+	// 7. an encoding is a snapshot owned by the caller: writing into the returned bytes does not touch the
+	// value, and updating the value in place does not touch bytes handed out earlier
+	snap := append([]byte(nil), enc...)
+	mine1 := mustMarshal(t, P.P)
+	for i := range mine1 {
+		mine1[i] ^= 0xa5
+	}
+	if again := mustMarshal(t, P.P); !bytes.Equal(again, snap) {
+		c03Fail(t, ev, gi, "encoding-aliases-value", "overwriting the bytes returned by MarshalBinary changed the point: now %x, was %x\n%s", again, snap, ctx)
+	}
+	held := mustMarshal(t, P.P)
+	heldCopy := append([]byte(nil), held...)
+	P.P.Add(P.P, basePoint(gi))
+	if !bytes.Equal(held, heldCopy) {
+		c03Fail(t, ev, gi, "encoding-aliases-value", "an in-place update of the point changed an encoding returned earlier: %x became %x\n%s", heldCopy, held, ctx)
+	}
 	lead0 := len(enc) > 0 && (enc[0] == 0 || (gi.Family == "p256" && len(enc) > 1 && (enc[1] == 0 || enc[33] == 0)))
 	ev.Case(P.Edge || P.NonN || lead0, ctx, "group:"+gi.Name, "P:"+P.Class, fmt.Sprintf("lead0:%v", lead0))
 }
@@ -239,6 +255,21 @@ func c03Scalar(t *rapid.T, ev *evProp, gi *GroupInfo) {
 	// value unchanged by encoding
 	if again := mustMarshal(t, s.S); !bytes.Equal(again, enc) || scalarToBig(s.S).Cmp(s.V) != 0 {
 		c03Fail(t, ev, gi, "scalar.value-changed", "scalar changed by encoding: %x vs %x\n%s", again, enc, ctx)
+	}
+	// an encoding is a snapshot owned by the caller (see c03Point, 7.)
+	snap := append([]byte(nil), enc...)
+	mine1 := mustMarshal(t, s.S)
+	for i := range mine1 {
+		mine1[i] ^= 0xa5
+	}
+	if again := mustMarshal(t, s.S); !bytes.Equal(again, snap) {
+		c03Fail(t, ev, gi, "scalar.encoding-aliases-value", "overwriting the bytes returned by MarshalBinary changed the scalar: now %x, was %x\n%s", again, snap, ctx)
+	}
+	held := mustMarshal(t, s.S)
+	heldCopy := append([]byte(nil), held...)
+	s.S.Add(s.S, g.Scalar().One())
+	if !bytes.Equal(held, heldCopy) {
+		c03Fail(t, ev, gi, "scalar.encoding-aliases-value", "an in-place update of the scalar changed an encoding returned earlier: %x became %x\n%s", heldCopy, held, ctx)
 	}
 	msb := new(big.Int).Rsh(s.V, uint(8*(g.ScalarLen()-1)))
 	lead0 := msb.Sign() == 0
